@@ -920,7 +920,7 @@ def impl_history(reqs: List[List[str]], pre: List[str]):
             try:
                 norm = os.path.normpath(path)
                 inside = os.path.dirname(norm) == out and os.path.basename(norm) not in ("", ".", "..") and \
-                    os.path.join(out, nm) == path and "\x00" not in path
+                    os.path.join(out, nm) == path and "\x00" not in path and "/" not in nm and nm not in ("", ".", "..")
                 existed = inside and os.path.lexists(path)
             except Exception:  # noqa: BLE001
                 inside, existed = False, False
